@@ -77,15 +77,28 @@ pub fn run<T: PegParserAdvanced<()> + Debug>(input: &str, u0: u64) -> String {
     log::set_enabled(true);
     log::take();
     let r = catch_unwind(AssertUnwindSafe(|| T::parse_advanced::<LogTracer>(input, &ParseSettings::default(), ())));
+    let mut tracediff = false;
     if std::env::var("PV_INDENTED").is_ok() {
+        // the shipped tracer (what `parse_with_trace` uses; it prints to stderr): same result as the plain parse
         log::set_enabled(false);
         let t = catch_unwind(AssertUnwindSafe(|| T::parse_advanced::<peginator::IndentedTracer>(input, &ParseSettings::default(), ())));
         log::set_enabled(true);
-        if t.is_err() {
-            return format!("PANIC\tparse_with_trace panicked\t\t\t\t{}", u0);
+        let t_s = match t {
+            Ok(Ok(v)) => Some(format!("OK {}", canon(&format!("{:?}", v)))),
+            Ok(Err(_)) => Some("ERR".to_string()),
+            Err(_) => None,
+        };
+        if t_s.is_none() && plain_s.is_some() {
+            log::take();
+            return format!("PANIC\tparse_with_trace (IndentedTracer) panicked, the plain parse did not\t\t\t\t{}", u0);
         }
+        tracediff = t_s != plain_s;
     }
-    render(input, r.map_err(panic_msg), u0, plain_s)
+    let mut line = render(input, r.map_err(panic_msg), u0, plain_s);
+    if tracediff && !line.contains("TRACEDIFF") {
+        line.push_str("\tTRACEDIFF");
+    }
+    line
 }
 
 /// run a rule of a grammar compiled with `user_context_type = pvglue::Ctx`
